@@ -17,7 +17,7 @@ import net_gen
 from net_gen import Cfg, Prog, ep
 import tcp_stream_gen as tg
 
-MTUS = [1, 28, 100, 100, 500, 1400, 1474, 1475, 1476, 3000]
+MTUS = [1, 28, 100, 100, 500, 800, 1400, 1474, 1475, 1476, 3000]
 
 
 def mtu_table(rng, cfg, style=None):
@@ -69,7 +69,8 @@ def tcp_scenario(rng, sid):
         cli = rng.choice(others)
         explicit = rng.random() < 0.5
         cip = rng.choice(cfg.v4(cli)) if explicit else cfg.v4(cli)[0]
-        reuse_ss = acc is not None and rng.random() < 0.3
+        # (the object a socket-returning accept creates exists only once that accept completed: never reused by name)
+        reuse_ss = acc is not None and not acc["fresh"] and not acc.get("moved") and rng.random() < 0.3
         # one accept at a time: the next one is issued from the previous accept's handler, or (when
         # the accepted socket object is reused) much later
         if k == 0: ctx = "top"
@@ -77,7 +78,8 @@ def tcp_scenario(rng, sid):
         else: ctx = last["hacc"]
         c = tg.connect(rng, P, cfg, 8000, srv, cli, sip=sip, a=(acc["a"] if acc else None),
                        ss=(acc["ss"] if reuse_ss else None), ctx=ctx, bind_cli=(cip if explicit else None),
-                       style=("accept" if acc else None), close_first=reuse_ss and rng.random() < 0.5)
+                       style=("accept" if acc else None), close_first=reuse_ss and rng.random() < 0.5,
+                       move_p=(0.0 if reuse_ss else 0.25), new_p=(0.0 if reuse_ss else 0.2))
         if acc is None:
             acc = c; sip = c["sip"]
         last = c
